@@ -37,11 +37,19 @@ LEVEL_TEXT = ("Theorems (Coq, all inputs, over the reals): the dispatch of Integ
               "(Integrate is such an integrator for \"Gauss-Legendre_2\" with every number of points and for \"Adaptive-Simpson\" - induction over its recursion: the test |S2-S| <= 15|eps| and Find_Epsilon do not see the sign - with no premise, "
               "and for the four boost names under the premise that the external rule is odd in its integrand, backend_odd), C13_reverse_any_axis and C13_front_ends_reverse_any_axis (each of the two axes of Integrate_2D and of the three of "
               "Integrate_3D, any integrand). Oddness of the boost rules themselves is NOT a theorem (external code; on the implementation the orientation of every axis is checked against the closed form). "
-              "NOT theorems: the 1e-9 / 1e-6 accuracies of the four boost quadratures (external code), of libphysica's own Gauss-Legendre rule (the Newton iteration for the roots is not analysed: no statement on the quality of roots and weights) "
+              "Two of the four boost quadratures are model terms since the seventh pass (C13_Model2.v, line by line from the boost 1.83 headers; coverage/C13.md): \"Gauss-Legendre\" = gauss<double,30>::integrate (the 15 abscissae and weights "
+              "of the header as literals) and \"Trapezoidal\" = trapezoidal with tolerance 2^-26 and 12 refinements; every case with these names is compared with the library as strictly as the library's own back ends (1e-12 of the scale, "
+              "in practice bit for bit). Theorems about them (C13_Proofs_Boost.v): from Integrate their own equal/reversed-limit branches are not taken (C13_boost_entry_branches_not_taken); both are odd in the integrand "
+              "(C13_gauss30_and_trapezoidal_odd: induction over the refinement loop - its stopping test sees |I0-I1| and sums of |y| only), so exchanging the limits of any one axis of a stack of any depth negates the result with NO premise on external code "
+              "for four of the six names (C13_reverse_any_axis_four_methods); \"Trapezoidal\" returns exactly the integral of every polynomial of degree <= 1 at whatever refinement level it stops, every orientation (C13_trapezoidal_exact_on_affine); "
+              "\"Gauss-Legendre\" returns exactly (1 + 2e-20) times the integral of such a polynomial - the decimal weights of the header add up to 1 + 2e-20 - hence within 1e-9 relative (C13_gauss_legendre_on_affine, C13_gauss_legendre_accuracy_on_affine); "
+              "over any number type a returning gauss<30> call has evaluated the integrand exactly once at each of its 30 points in order (C13_gauss30_samples); over the reals both rules sample within [a,b] only, for every refinement level "
+              "(C13_gauss30_and_trapezoidal_sample_within_limits). Still external (Section variable, stand-in rule in the driver, compared at 1e-9): gauss_kronrod<double,31> and tanh_sinh<double>. "
+              "NOT theorems: the 1e-9 / 1e-6 accuracies of the four boost quadratures beyond degree 1 (two of them external code), of libphysica's own Gauss-Legendre rule (the Newton iteration for the roots is not analysed: no statement on the quality of roots and weights) "
               "and of the adaptive Simpson rule beyond degree 5 without the premise above, on smooth "
               "integrands - these are checked on the implementation against closed-form integrals (S4) on every run; the Gallina model (the extracted term, with the library's own two "
-              "back ends modelled line by line and the boost quadratures replaced by a stand-in rule) is compared with the C++ on every case: bit for bit for the own back ends, "
-              "at the method's accuracy for boost. Also on the implementation only (S4): every front end equals, bit for bit, the back end of the method name called directly and nested "
+              "back ends and boost's gauss<30> and trapezoidal modelled line by line and gauss_kronrod / tanh_sinh replaced by a stand-in rule) is compared with the C++ on every case: bit for bit for the four modelled back ends, "
+              "at the method's accuracy for the two external ones. Also on the implementation only (S4): every front end equals, bit for bit, the back end of the method name called directly and nested "
               "level by level by the harness with the same method_parameter; the fixed rules evaluate n points per level; limits of different axes that coincide; nearly equal limits; "
               "re-entrant user functions; explicit numbers of points of Gauss-Legendre_2 up to several thousand and recursion depths of Gauss-Kronrod up to 100; azimuth ranges anywhere on the real line "
               "(negative, beyond 2 pi, exact quarter/half/full/double turns) and cosine ranges in every orientation; call histories (sessions of several calls in one process, every case line in a process "
@@ -66,11 +74,12 @@ LEVEL_TEXT = ("Theorems (Coq, all inputs, over the reals): the dispatch of Integ
               "evaluations its stopping rule takes per level (evaluation-count). A limit or counter shared between nesting levels that only bites beyond about 1e6 evaluations in one request is therefore "
               "seen by the thorough tier, not by the quick tier.")
 LEVEL_NOTE = ("Coq 8.16.1 kernel; theorems over R use the standard library's real-number axioms and Coquelicot's RInt (axioms listed in the evidence); premises carried by the theorems: "
-              "exactness of the selected 1-D back end on the integrands that occur, continuity/integrability of the integrand; boost::math::quadrature (trapezoidal, gauss<30>, "
-              "gauss_kronrod<31>, tanh_sinh) is external code modelled as a Section variable; hand-written model tied by differential correspondence (extraction with ExtrOcamlBasic only)")
+              "exactness of the selected 1-D back end on the integrands that occur, continuity/integrability of the integrand; boost::math::quadrature gauss_kronrod<31> and tanh_sinh are external code modelled as a Section variable; "
+              "gauss<double,30> and trapezoidal are modelled line by line from the installed boost 1.83 headers (finite-limit branches; a different boost release would show as a correspondence mismatch); hand-written model tied by differential correspondence (extraction with ExtrOcamlBasic only)")
 TOL = (1e-12, 0.0)
 ALLOW_CRASH = True          # a crash is reported by predicates() below (same message), with a signature that separates the known abort K-C13-1 from any other
-TRUSTED = ["boost::math::quadrature back ends are a Section variable of the model (instantiated by a 2-panel 30-point Gauss-Legendre stand-in in the OCaml driver)",
+TRUSTED = ["boost::math::quadrature gauss_kronrod<double,31> and tanh_sinh<double> are a Section variable of the model (instantiated by a 2-panel 30-point Gauss-Legendre stand-in in the OCaml driver); gauss<double,30> and trapezoidal are model terms (C13_Model2.v)",
+           "coverage/C13.md lists function by function what is in the model, what is modelled by specification and what is judged on the implementation only",
            "closed-form antiderivatives used by the S4 predicates (checks/C13.py) evaluated with Python's math library"]
 ASSUMPTIONS = ["a call 'before main' is made from the constructor of the last namespace-scope object of the harness's translation unit, which the link line puts in front of libphysica.a: with GNU ld / lld the initialisers of that "
                "translation unit run before those of the library's translation units (the situation of a caller's namespace-scope constant initialised with an integral)",
@@ -90,6 +99,7 @@ ASSUMPTIONS = ["a call 'before main' is made from the constructor of the last na
 
 BOOST = ("Trapezoidal", "Gauss-Legendre", "Gauss-Kronrod", "Tanh-Sinh")
 OWN = ("Gauss-Legendre_2", "Adaptive-Simpson")
+STANDIN = ("Gauss-Kronrod", "Tanh-Sinh")       # boost back ends NOT in the model (stand-in rule); gauss<30> and trapezoidal are model terms (C13_Model2.v)
 METHODS = BOOST + OWN
 UNKNOWN = ("Foo", "Bogus", "gauss-legendre", "Gauss-Legendre_3", "Simpson", "Monte-Carlo", "Vegas", "Miser", "Tanh-Sinh.")
 NORM = "sqrt + * x x + * y y * z z"
@@ -1679,7 +1689,7 @@ def compare_call(line, io, mo):
     scale = es[1] if es else max(abs(tokf(a[0])), abs(tokf(b[0])))
     inner = inner_of(fex)
     nval = 2
-    if method in BOOST or (inner and inner[0] in BOOST) or any(m in BOOST for m in deep_methods(fex)):
+    if method in STANDIN or (inner and inner[0] in STANDIN) or any(m in STANDIN for m in deep_methods(fex)):
         # external back end replaced by a stand-in rule in the model: values agree at the accuracy of the method on the smooth
         # families; on the sharply peaked integrands of the 'corr' kinds the stand-in says nothing about the external code
         if ann and ann[0] in CORR: return True, False, ""
